@@ -46,3 +46,13 @@ func Outf(format string, a ...interface{}) { fmt.Fprintf(realOut, format, a...) 
 
 // Out returns the real stdout.
 func Out() *os.File { return realOut }
+
+// KeepStdout returns a duplicate of the current fd 1 (call before SilenceStdout in worker processes:
+// the duplicate is the pipe to the master).
+func KeepStdout() *os.File {
+	fd, err := syscall.Dup(1)
+	if err != nil {
+		panic(err)
+	}
+	return os.NewFile(uintptr(fd), "worker-out")
+}
